@@ -1,7 +1,38 @@
-"""C03 — see DESIGN.md section 5; format models: PE (more to come)."""
+"""C03 — everything outside the signature area is unchanged by signing.  Format models: PE, CAB, PowerShell, JAR, ZIP
+rewrite, end-to-end oracle; for MSI (compound files) the container half of C18's check is reused: stream preservation judged by
+the Lean validator on relic's real output plus the writer-model tie."""
+import importlib, sys
 from composite import install
 TIE = "corr:pe"
 TIE_THEOREM = "Relic.Props.C03 (models Relic.Model.PE vs lib/authenticode)"
 UNPROVED = ['zip_rewrite_preserves_members_full (view of the output through Relic.Spec.Zip = added ++ kept): statement only; proved at layout level (zip_rewrite_preserves_members)']
 IMPL_PARALLEL = 16
 install(globals(), "C03", ["pe", "e2e", "cab", "ps", "jar", "ziprw"])
+RULE = RULE + (" || MSI containers: the hist / wr / adds / atab ops of C18 (every pre-existing stream and storage identical in name, "
+               "metadata and bytes after InsertMSISignature / AddFile / DeleteFile histories; writer tables = model tables)")
+
+
+def run(ctx):
+    from runner import correspondence
+    mod = sys.modules[__name__]
+    rp = ctx.get("replay_ops")
+    cov, findings, known = {}, [], []
+    if rp is None or any(not op.startswith("C18 ") for op in rp):
+        c = dict(ctx, replay_ops=[op for op in rp if not op.startswith("C18 ")]) if rp is not None else ctx
+        cov, findings, known = correspondence("C03", c, mod)
+    if rp is None or any(op.startswith("C18 ") for op in rp):
+        c18 = importlib.import_module("props.c18")
+        c = dict(ctx, c18_kinds=("hist", "wr", "adds", "atab"), c18_prop="C03")
+        if rp is not None:
+            c["replay_ops"] = [op for op in rp if op.startswith("C18 ")]
+        c2, f2, k2 = c18.run(c)
+        findings += f2
+        known += k2
+        if cov:
+            cov["evaluations"] = cov.get("evaluations", 0) + c2.get("evaluations", 0)
+            cov["distinct_nontrivial"] = cov.get("distinct_nontrivial", 0) + c2.get("distinct_nontrivial", 0)
+            cov["msi_container_half_of_C18"] = {k: c2[k] for k in c2 if k in ("evaluations", "distinct_nontrivial", "inputs_valid",
+                                                                              "writer_model_tie", "shapes_exercised")}
+        else:
+            cov = c2
+    return cov, findings, known
